@@ -8,11 +8,80 @@
 // found in the LICENSE file. See the AUTHORS file for names of contributors.
 
 use std::sync::Arc;
+#[cfg(not(rescrv_blue_verif_shuttle))]
 use std::sync::atomic::{AtomicPtr, Ordering};
+#[cfg(rescrv_blue_verif_shuttle)]
+use shuttle::sync::atomic::{AtomicPtr, Ordering};
 
+#[cfg(not(rescrv_blue_verif_shuttle))]
 use rand::Rng;
+#[cfg(rescrv_blue_verif_shuttle)]
+use shuttle::rand::Rng;
 
 const DEFAULT_MAX_HEIGHT: usize = 12;
+
+/////////////////////////////////////////// verification ///////////////////////////////////////////
+
+/// Verification hooks.  Compiled only with `--cfg rescrv_blue_verif`.
+///
+/// A registry of live node addresses.  Every dereference of a node pointer asserts that the node
+/// has not been released, which turns a use-after-free into a deterministic, replayable report
+/// instead of undefined behavior.
+#[cfg(rescrv_blue_verif)]
+pub mod verif {
+    use std::collections::HashSet;
+    use std::sync::Mutex;
+    use std::sync::atomic::{AtomicBool, AtomicU64, Ordering};
+
+    static ENABLED: AtomicBool = AtomicBool::new(false);
+    static DEAD_DEREFS: AtomicU64 = AtomicU64::new(0);
+    static LIVE: Mutex<Option<HashSet<usize>>> = Mutex::new(None);
+
+    /// Turn the registry on or off.  Off by default.
+    pub fn enable(enabled: bool) {
+        ENABLED.store(enabled, Ordering::SeqCst);
+    }
+
+    /// Number of dereferences of released nodes seen since the last reset.
+    pub fn dead_derefs() -> u64 {
+        DEAD_DEREFS.load(Ordering::SeqCst)
+    }
+
+    /// Forget everything.
+    pub fn reset() {
+        DEAD_DEREFS.store(0, Ordering::SeqCst);
+        *LIVE.lock().unwrap() = None;
+    }
+
+    pub(crate) fn register(ptr: usize) {
+        if ENABLED.load(Ordering::SeqCst) {
+            LIVE.lock()
+                .unwrap()
+                .get_or_insert_with(HashSet::new)
+                .insert(ptr);
+        }
+    }
+
+    pub(crate) fn unregister(ptr: usize) {
+        if ENABLED.load(Ordering::SeqCst) {
+            if let Some(live) = LIVE.lock().unwrap().as_mut() {
+                live.remove(&ptr);
+            }
+        }
+    }
+
+    pub(crate) fn assert_live(ptr: usize) {
+        if ENABLED.load(Ordering::SeqCst) {
+            let live = LIVE.lock().unwrap();
+            let is_live = live.as_ref().map(|l| l.contains(&ptr)).unwrap_or(false);
+            drop(live);
+            if !is_live {
+                DEAD_DEREFS.fetch_add(1, Ordering::SeqCst);
+                panic!("skipfree: dereference of a node that is not live: {ptr:#x}");
+            }
+        }
+    }
+}
 
 /////////////////////////////////////////////// Node ///////////////////////////////////////////////
 
@@ -67,6 +136,8 @@ mod node_ptr {
     fn deref<'a, K, V, const MAX_HEIGHT: usize>(
         ptr: *mut Node<K, V, MAX_HEIGHT>,
     ) -> &'a Node<K, V, MAX_HEIGHT> {
+        #[cfg(rescrv_blue_verif)]
+        crate::verif::assert_live(ptr as usize);
         unsafe { &*ptr }
     }
 
@@ -161,13 +232,24 @@ impl<K: Eq + Ord + Default, V: Default, const MAX_HEIGHT: usize> SkipList<K, V, 
     fn new_node(key: K, value: V, height: usize) -> *mut Node<K, V, MAX_HEIGHT> {
         assert!(height > 0);
         assert!(height <= MAX_HEIGHT);
+        #[cfg(rescrv_blue_verif)]
+        {
+            let node: *mut Node<K, V, MAX_HEIGHT> =
+                Box::leak(Box::new(Node::new(key, value, height)));
+            crate::verif::register(node as usize);
+            return node;
+        }
+        #[cfg(not(rescrv_blue_verif))]
         Box::leak(Box::new(Node::new(key, value, height)))
     }
 
     fn random_height() -> usize {
         const BRANCHING: u8 = 4;
         let mut height = 1usize;
+        #[cfg(not(rescrv_blue_verif_shuttle))]
         let mut rng = rand::thread_rng();
+        #[cfg(rescrv_blue_verif_shuttle)]
+        let mut rng = shuttle::rand::thread_rng();
         while height < MAX_HEIGHT && rng.r#gen::<u8>() % BRANCHING == 0 {
             height += 1;
         }
@@ -291,6 +373,8 @@ impl<K, V, const MAX_HEIGHT: usize> Drop for SkipList<K, V, MAX_HEIGHT> {
         while !ptr.is_null() {
             let to_drop = ptr;
             ptr = node_ptr::get_next(ptr, 0);
+            #[cfg(rescrv_blue_verif)]
+            crate::verif::unregister(to_drop as usize);
             drop(unsafe { Box::from_raw(to_drop) });
         }
     }
